@@ -9,6 +9,7 @@ from ..report import Ob, PROVED, REFUTED, UNDECIDED, func_where, ASSUMPTIONS, Fa
 from ..model import norm_text, AnalysisError
 from .. import seqops
 from .decode import DecodeUnits
+from . import common
 from .c08 import src_slices
 
 
@@ -194,5 +195,35 @@ def check(prog, res, tier):
             if not (isinstance(m, DictV) and m.desc == 'field values'):
                 fails.append(definite(f'the message parser merges {m!r}, not the element parser result'))
         return fails
+    for ob in common.state_obs(res, 'C16.a', func_where(mfi), [('mask', runs_m)], 'masking'):
+        res.add(ob)
+
+    # ---- C16.c which configuration decides about masking when the caller passes none
+    lfi = prog.func('iso8583.loads')
+
+    def cfg_capture(it, fi_, args, kwargs, node, self_obj):
+        names = [a.arg for a in fi_.node.args.args]
+        b = dict(zip(names, args))
+        b.update({k: v for k, v in kwargs.items() if k != '**'})
+        it.user['parser_config'] = it.resolve(b.get('bit_config'))
+        return DictV(open_=True, desc='message')
+    runs_dc = Runs(prog, lambda it: it.call_function(lfi, [it.sym_bytes('message', tags=frozenset(['wire']))], {}),
+                   summaries={'iso8583._iso8583_to_dict': cfg_capture}, res=res)
+
+    def chk_dc(p, mode):
+        if p.outcome != 'return':
+            return []
+        c = p.interp.user.get('parser_config')
+        if c is None:
+            return [soft('the configuration handed to the message parser was not observed')]
+        if not (isinstance(c, PyLit) and c.path.endswith("['bit_config']")):
+            return [soft(f'without iso_config the message parser works with {c!r}')]
+        if 'import-time' in c.tags:
+            return [definite("without iso_config the message parser works with a module-level name bound to config['bit_config'] when "
+                             "the module was imported: a configuration installed afterwards (with its PAN masking) is ignored", firm=True)]
+        return []
+    res.add(runs_dc.judge('C16.c', "loads() without iso_config takes config['bit_config'] as it is when loads is called", func_where(lfi),
+                          "if not iso_config: iso_config = config['bit_config']", chk_dc, rule='C16.c.default-config'))
+
     res.add(du.loads.judge('C16.c', 'the message parser stores only the MTI and the dictionaries returned by the element parser',
                            func_where(dfi), 'return_values.update(return_message)', chk_chan))
